@@ -904,8 +904,19 @@ pub fn run(cfg: &RunCfg) -> Report {
     );
     let cases: Vec<Case> = if let Some(r) = &cfg.replay {
         let r = r.get("case").unwrap_or(r);
-        let site = if let Some(n) = r["const"].as_str() { Site::Const(n.to_string()) } else { Site::DefaultFn(r["default_fn"].as_str().unwrap_or("").to_string()) };
-        vec![Case { asn: r["asn1"].as_str().unwrap_or("").to_string(), site, src: r["src"].as_str().unwrap_or("").to_string(), kind: "replay" }]
+        // cases of the TypeScript families carry neither a constant nor a default function name: the value assignment's own name
+        let first_word = r["asn1"].as_str().and_then(|a| a.split_whitespace().next()).unwrap_or("").to_string();
+        let site = if let Some(n) = r["const"].as_str() {
+            Site::Const(n.to_string())
+        } else if let Some(d) = r["default_fn"].as_str() {
+            Site::DefaultFn(d.to_string())
+        } else if first_word.starts_with(|ch: char| ch.is_ascii_lowercase()) {
+            Site::Const(first_word.to_uppercase().replace('-', "_"))
+        } else {
+            Site::DefaultFn(String::new())
+        };
+        let kind: &'static str = if r["kind"].as_str() == Some("typescript-string-constant") { "cstring" } else { "replay" };
+        vec![Case { asn: r["asn1"].as_str().unwrap_or("").to_string(), site, src: r["src"].as_str().unwrap_or("").to_string(), kind }]
     } else {
         gen_cases(cfg)
     };
